@@ -9,7 +9,10 @@ import (
 	. "verifh/hc"
 )
 
-type gen struct{ r *Rand }
+type gen struct {
+	r              *Rand
+	forceRootWhich int // >= 0: discriminant for the next root struct tree (depth 0)
+}
 
 func (g *gen) bytesVal(max int) []byte {
 	n := g.r.Intn(max + 1)
@@ -314,6 +317,9 @@ func (g *gen) fillNode(mn *mnode, s *aStruct, depth int) {
 		which = g.pickWhich(mn)
 		if mn.wk == 'x' && g.r.Intn(8) != 0 {
 			which = mn.fixed
+		}
+		if depth == 0 && g.forceRootWhich >= 0 {
+			which = uint16(g.forceRootWhich)
 		}
 		putU16(s.data, int(mn.discOff)*2, which)
 	}
